@@ -75,4 +75,9 @@ W_Reducible   == ~(Done /\ ~res.cyclic /\ res.red # G1.edges /\ res.clo # G1.edg
 W_EmptyNested == ~(Done /\ ~res.cyclic /\ \E g \in GraphNodes(G1, Content) :
                       Content[g].nodes = {} /\ Deps(G1, g) # {} /\ Dependees(G1, g) # {})
 W_CyclicSeen  == ~(Done /\ res.cyclic)
+(* two different graph-valued nodes with the same content (distinct nested graphs that compare equal in the
+   implementation), one depending on the other, between a dependee and a dependency *)
+W_TwinNested  == ~(Done /\ ~res.cyclic /\ \E g, h \in GraphNodes(G1, Content) :
+                      /\ g # h /\ Content[g] = Content[h] /\ <<g, h>> \in G1.edges
+                      /\ Dependees(G1, g) # {} /\ Deps(G1, h) # {} /\ res.ord # {})
 =============================================================================
